@@ -395,6 +395,35 @@ def folder_visible_tables() -> List[str]:
     return out
 
 
+# ------------------------------------------------------------------------------------------------- ACLObservation construction paths
+def acl_construction_tables() -> List[str]:
+    """Which methods of ACLObservation de-duplicate the four lists (`dict.fromkeys`), and every place that constructs an ACLObservation:
+    DIRECTLY (`ACLObservation(...)`, runs `__init__` only) or through `ACLObservation.from_config(...)` (runs `from_config`, then `__init__`)."""
+    from harness.lib.core import SRC
+    acl = class_def(parse(D + "acl_observation.py"), "ACLObservation")
+    dedup = []
+    for fn in acl.body:
+        if isinstance(fn, ast.FunctionDef) and any(isinstance(n, ast.Call) and ast.unparse(n.func) == "dict.fromkeys" for n in ast.walk(fn)):
+            dedup.append(fn.name)
+    sites = []
+    for f in sorted((SRC / "game" / "agent" / "observations").glob("*.py")):
+        tree = ast.parse(f.read_text())
+        for cls in [n for n in ast.walk(tree) if isinstance(n, ast.ClassDef)]:
+            for fn in [n for n in cls.body if isinstance(n, ast.FunctionDef)]:
+                for n in ast.walk(fn):
+                    if isinstance(n, ast.Call):
+                        t = ast.unparse(n.func)
+                        if t == "ACLObservation":
+                            sites.append((f"{cls.name}.{fn.name}", "direct"))
+                        elif t == "ACLObservation.from_config":
+                            sites.append((f"{cls.name}.{fn.name}", "from_config"))
+    from collections import Counter
+    cnt = Counter(sites)
+    rows = [f"({q(a)}, {q(b)}, {n})" for (a, b), n in sorted(cnt.items())]
+    return [f"def aclDedupIn : List String := {lean_list([q(x) for x in dedup])}",
+            f"def aclConstructionSites : List (String × String × Nat) := {lean_list(rows)}"]
+
+
 # ------------------------------------------------------------------------------------------------- the documentation's band tables
 def doc_tables() -> List[str]:
     """The category tables of the demonstration notebook (markdown, read as JSON text): the rows `|value|meaning|` under the named
@@ -455,5 +484,7 @@ def emit() -> str:
     out += folder_visible_tables()
     out.append("")
     out += doc_tables()
+    out.append("")
+    out += acl_construction_tables()
     out.append("end Primaite.Gen.ObsCfgTables\n")
     return "\n".join(out)
